@@ -426,6 +426,10 @@ class DictionaryProperty(Property):
         if len(dictified) < 1:
             raise ValueError("must not be empty.")
 
+        for k, v in dictified.items():
+            if v is None:
+                raise ValueError("The value for key '%s' must not be null" % k)
+
         return dictified, False
 
 
